@@ -842,6 +842,9 @@ def r14_report_units(c, facts, rule='C11.R14'):
 
 def run(c, facts):
     c.run(r16_tokens_stored, facts)
+    import c15 as _c15r
+    R18 = c.rule('C11.R18', 'FRESH-TREE-ON-REQUEST: the ranges a request is answered with are spans of the tree of the current text - every request is preceded by a refresh (shared with C15.R2)')
+    c.shared(R18, _c15r.r2_refresh_first, 'C15.R2', facts)
     c.run(r15_attach_order, facts)
     c.run(r14_report_units, facts)
     import lexrules
